@@ -679,12 +679,13 @@ def e2e(R, lean_ok):
             if real == "panic":
                 fails.append(({"program": name, "rt": spec["rt"], "pavexc_output_tail": o["out"][-1500:], "app_module_source": o["src"]},
                               "compiler panic on a route table: " + " / ".join(l.strip() for l in o["out"].split("\n") if "panicked" in l or "unreachable" in l)[:200], "panic"))
-            continue
+            if real != "ok":
+                continue
         if real != "ok":
             continue
         hist["no_nested_suffix"] = hist.get("no_nested_suffix", 0) + (1 if mo.get("nns") else 0)
         st = static_table(o["lib_rs"])
-        if st != model_static(mo["table"]):
+        if mclass == "ok" and st != model_static(mo["table"]):
             dis.append({"program": name, "what": "generated insert sequence", "lib_rs": st, "model": model_static(mo["table"]), "rt": spec["rt"]})
         d = rt.get(name)
         if not d or not d.get("result"):
@@ -698,11 +699,12 @@ def e2e(R, lean_ok):
             continue
         hist["servers"] += 1
         app = App(spec["rt"])
-        for req, resp, out in zip(d["requests"], res["responses"], mo.get("out", [])):
+        outs = mo.get("out") or [None] * len(d["requests"])
+        for req, resp, out in zip(d["requests"], res["responses"], outs):
             hist["requests"] += 1
             tags[req.get("tag", "?")] = tags.get(req.get("tag", "?"), 0) + 1
             ob = observed(resp, name)
-            pr = predicted(out)
+            pr = predicted(out) if out is not None else ob
             if not same_outcome(ob, pr):
                 dis.append({"program": name, "what": "dispatch", "request": req, "observed": ob, "model": pr, "rt": spec["rt"]})
             j = judge(app, req, ob)
@@ -712,6 +714,67 @@ def e2e(R, lean_ok):
                 fails.append(({"program": name, "request": req, "observed": ob, "expected": _plain(app.expect(req)), "rt": spec["rt"],
                                "app_module_source": o["src"]}, j[0], j[1], (app, spec, req, ob)))
     return progs, dis, fails, seen, hist, tags
+
+
+def replay_e2e(R, rp):
+    """Re-runs one application of a replay file end to end: its own scratch workspace, the real pavexc,
+    the generated server, the recorded request (plus the generic script)."""
+    import os
+    import e2e
+    import gen_app
+    import gen_routes
+    e2e.ensure_toolchain(R)
+    ok, out = e2e.build_pavexc(R)
+    if not ok:
+        R.violation("pavexc does not build (broken tie)", {"tail": out[-1500:]}, no_failing_input=True)
+        return
+    name = "z0"
+    spec = gen_routes.from_corpus({"id": "replay", "handlers": rp["rt"]["handlers"], "ops": rp["rt"]["ops"],
+                                   "reqs": [[rp["request"]["method"], rp["request"]["path"], rp["request"].get("host", "localhost")]] if rp.get("request") else []}, name)
+    root = pxvlib.scratch_dir("c07-replay")
+    ws = e2e.Workspace(root, {name: gen_app.render(spec)})
+    ws.write()
+    rc, out = ws.emit_blueprints()
+    if rc != 0:
+        R.violation("replay application does not compile", {"tail": out[-1500:]}, no_failing_input=True)
+        return
+    r = ws.pavexc(name, dump=False)
+    reqs = gen_routes.request_script(spec)
+    mo = json.loads(pxvlib.run_model("router", [json.dumps({"op": "bp", "handlers": spec["rt"]["handlers"], "ops": spec["rt"]["ops"],
+                                                            "reqs": [{"method": q["method"], "path": q["path"], "host": q["host"]} for q in reqs]})])[0])
+    real = "panic" if r["panicked"] else ("ok" if r["rc"] == 0 else "reject")
+    R.log("replay: pavexc %s, model %s" % (real, mo.get("verdict")))
+    fails = []
+    if real == "panic":
+        fails.append(("compiler panic on a route table", "panic", None))
+    elif real == "ok":
+        cc = ws.cargo_check([name])
+        if cc[name][0]:
+            e2e.write_runner(ws, [name])
+            res = e2e.run_servers(ws, {name: reqs})[name]
+            if "start_panic" in res:
+                fails.append(("accepted blueprint, but the generated server panics at start-up: %s" % res["start_panic"][:200], "start-panic", None))
+            else:
+                app = App(spec["rt"])
+                for req, resp in zip(reqs, res.get("responses", [])):
+                    ob = observed(resp, name)
+                    j = judge(app, req, ob)
+                    if j:
+                        fails.append((j[0], j[1], (app, spec, req, ob)))
+    unknown = 0
+    for msg, klass, ctx in fails:
+        known = classify_known(R, *ctx, msg, klass) if ctx else None
+        if known is not None:
+            R.known_hit(known)
+        else:
+            unknown += 1
+            if unknown <= 3:
+                R.violation("implementation breaks the property: " + msg, {"rt": spec["rt"], "request": ctx[2] if ctx else None})
+    R.coverage["evaluations"] = len(reqs) + 1
+    R.coverage["distinct_nontrivial"] = len(reqs)
+    R.coverage["rule"] = "replay of one application end to end"
+    import shutil
+    shutil.rmtree(root, ignore_errors=True)
 
 
 def _plain(e):
@@ -740,6 +803,18 @@ def run(R):
                     {"harness": have, "repo": want}, no_failing_input=True)
         return
     R.coverage["matchit_version"] = want
+    if R.replay:
+        rp = json.load(open(R.replay))["replay"]
+        if "rt" in rp:
+            lean_ok, lrep = pxvlib.lean_obligations(R, ["Pxv.Thm.C07"])
+            replay_e2e(R, rp)
+            if not lean_ok:
+                R.violation("proof obligations of Pxv.Thm.C07 no longer check", {"lean": lrep.get("errors")}, no_failing_input=True)
+            return
+        if "case" not in rp and "cases" not in rp:
+            R.violation("replay file names no input (broken correspondence recorded earlier): re-run the full check",
+                        {"replay_of": R.replay}, no_failing_input=True)
+            return
     pxvlib.differential(
         R, modules=["Pxv.Thm.C07"], model="router", pkg="c07", gen=gen, oracle=oracle_inproc,
         nontrivial=nontrivial_inproc, match_known=match_known_inproc(R),
@@ -750,9 +825,7 @@ def run(R):
     R.coverage["in_process"] = inproc
     lean_ok = R.coverage.get("discharged", 0) > 0
     if R.replay:
-        rp = json.load(open(R.replay))["replay"]
-        if "case" in rp or "cases" in rp:
-            return
+        return
     progs, dis, fails, seen, hist, tags = e2e(R, lean_ok)
     R.coverage["programs"] = len(progs)
     R.coverage["e2e"] = dict(hist, request_tags=tags)
